@@ -27,7 +27,11 @@ def handleDisasm : List Sexp → Sexp
       match decodeAll bytes.length bytes with
       | some is =>
         .list (.atom "ok" :: (List.zip (instrOffsets 0 is) is).map fun (off, i) =>
-          .list [Sexp.nat off, .atom i.op.goName, if i.op.hasArg then Sexp.nat i.arg else .atom "-"])
+          .list ([Sexp.nat off, .atom i.op.goName, if i.op.hasArg then Sexp.nat i.arg else .atom "-"] ++
+            (match i.op.argClass with
+             | .jumpFwd => [Sexp.nat (off + i.size + i.arg)]     -- the target Disassemble prints in parentheses
+             | .jumpBack => [Sexp.nat (off + i.size - i.arg)]
+             | _ => [])))
       | none => .list [.atom "undecodable"]
     | none => .list [.atom "bad-request"]
   | _ => .list [.atom "bad-request"]
